@@ -54,6 +54,7 @@ func (bmach *Bondmachine) Fitness_default(in *simbox.Simbox, exp *simbox.Simbox,
 	if err := vm.Launch_processors(in); err != nil {
 		return 0, err
 	}
+	defer vm.Stop_processors()
 
 	for i := uint64(0); i < sim_interactions; i++ {
 
